@@ -51,6 +51,12 @@ def cases(tier, seed):
                 for k in (1, 2, 3):
                     for reg in ((0.5,) if (k != 2 and tier == 'quick') else (0.1, 0.5, 0.9)):
                         out.append(('LMNN/%s/%s/k=%d/reg=%g' % (dsn, lab, k, reg), ('LMNN', dsn, lab, dict(o, n_neighbors=k, regularization=reg), seed)))
+                if o['n_components'] is None and isinstance(o.get('init'), str) and o.get('init') in ('identity', 'auto'):
+                    # a class containing two identical rows (a repeated measurement): nobody may be their own target neighbour
+                    for k in (1, 2):
+                        out.append(('LMNN/%s/%s,dup_rows/k=%d/reg=0.5' % (dsn, lab, k), ('LMNN', dsn, lab + ',dup_rows', dict(o, n_neighbors=k, regularization=0.5), seed)))
+    # more samples than any block size a distance computation could use (1 030 > 1 024)
+    out.append(('MLKR/1030_samples/init=identity', ('MLKR_big', 'N1030', 'init=identity', {}, seed)))
     return out
 
 
@@ -75,11 +81,99 @@ def close(a, b, rtol, atol):
     return abs(a - b) <= atol + rtol * max(abs(a), abs(b))
 
 
+def mlkr_ref_vec(L, X, y):
+    """leave-one-out kernel-regression cost and gradient, row by row (O(n^2 d) memory-light form of ref.mlkr)."""
+    Z = X.dot(L.T)
+    n, d = X.shape
+    cost = 0.0
+    G = np.zeros((d, d))
+    A = np.zeros((d, d))
+    for i in range(n):
+        Di = ((Z - Z[i]) ** 2).sum(1)
+        Di[i] = np.inf
+        e = np.exp(-(Di - Di.min()))
+        S = e / e.sum()
+        yh = S.dot(y)
+        cost += (yh - y[i]) ** 2
+        W = (yh - y[i]) * (yh - y) * S
+        Xi = X[i] - X
+        G += (Xi * W[:, None]).T.dot(Xi)
+        A += (np.abs(Xi) * np.abs(W)[:, None]).T.dot(np.abs(Xi))
+    return float(cost), 4 * L.dot(G), 4 * np.abs(L).dot(A)
+
+
+def run_mlkr_big():
+    rs = np.random.RandomState(10300)
+    n, d = 1030, 3
+    X = np.round(rs.randn(n, d) * 4) / 4
+    y = X.dot([1.0, -0.5, 0.25]) + np.round(rs.randn(n) * 8) / 32
+    site, tr = 'MLKR.fit', ['1030_samples']
+    viol, sigs = [], set()
+    head = {'value': 0.0, 'gradient': 0.0}
+    rec = {}
+    real_min = ml.mlkr.minimize
+
+    def spy_min(fun, x0, args, *a, **kw):
+        rec['x0'], rec['fun'], rec['args'], rec['evals'] = np.array(x0, copy=True), fun, args, []
+
+        def wrapped(x, *aa):
+            v, g = fun(x, *aa)
+            rec['evals'].append((np.array(x, copy=True), float(v), np.array(g, copy=True)))
+            return v, g
+        return real_min(wrapped, x0, args, *a, **kw)
+    est = ml.MLKR(init='identity', max_iter=3)
+    with Patched(ml.mlkr, 'minimize', spy_min):
+        try:
+            est.fit(X.copy(), y.copy())
+        except Exception as e:
+            return dict(evals=1, sigs=[], viol=[V(site, 'raises', 'fit raised %s: %s' % (type(e).__name__, str(e)[:120]), tr)])
+    # self-test of the row-wise reference against the plain-loop reference on a small prefix
+    fs, gs_, _ = ref.mlkr(np.eye(d), X[:40], y[:40])
+    fv, gv, _ = mlkr_ref_vec(np.eye(d), X[:40], y[:40])
+    if abs(fs - fv) > 1e-10 * abs(fs) or np.abs(gs_ - gv).max() > 1e-9 * np.abs(gs_).max():
+        return dict(internal_error='row-wise MLKR reference disagrees with the plain-loop reference')
+    L0 = rec['x0'].reshape(d, d)
+    pts = [('visited', x.reshape(d, d), v, g.reshape(d, d)) for x, v, g in rec['evals'][:4]]
+    rr = np.random.RandomState(7)
+    for pn, Lp in (('init/2', L0 / 2), ('random', np.round(rr.randn(d, d) * 4) / 4), ('random_2_rows', np.round(rr.randn(2, d) * 4) / 4)):
+        v, g = rec['fun'](Lp.ravel().copy(), *rec['args'])
+        pts.append((pn, Lp, float(v), np.array(g).reshape(Lp.shape)))
+    evals = 0
+    for pn, Lp, v, g in pts:
+        fr, gr, ga = mlkr_ref_vec(Lp, X, y)
+        evals += 1
+        rv = abs(v - fr) / max(abs(fr), 1e-12)
+        rg = (np.abs(g - gr) / (ga + 1e-300)).max() if np.isfinite(g).all() else np.inf
+        head['value'] = max(head['value'], rv / 1e-9)
+        head['gradient'] = max(head['gradient'], rg / 1e-7)
+        if not np.isfinite(v) or rv > 1e-9:
+            viol.append(V(site, 'objective_value', 'with 1030 samples, at a %s transformation the optimiser is given %.12g, the documented '
+                          'leave-one-out objective is %.12g' % (pn, v, fr), tr + [pn]))
+        if rg > 1e-7:
+            viol.append(V(site, 'gradient', 'with 1030 samples, at a %s transformation the gradient differs from the derivative of the documented '
+                          'objective by %.3g relative' % (pn, rg), tr + [pn]))
+    f0, f1 = mlkr_ref_vec(L0, X, y)[0], mlkr_ref_vec(est.components_, X, y)[0]
+    if f1 > f0 + 1e-9 * (1 + abs(f0)):
+        viol.append(V(site, 'worse_than_init', 'documented objective at components_ (%.10g) is worse than at the initial transformation (%.10g)' % (f1, f0), tr))
+    sigs.add(('MLKR', 'N1030', len(rec['evals'])))
+    return dict(evals=evals, sigs=sigs, viol=viol, states=evals, transitions=len(rec['evals']), headroom=head,
+                sample={'learner': 'MLKR', 'samples': n, 'features': d, 'optimiser_evaluations': len(rec['evals']), 'probes': 3})
+
+
 def run_case(spec):
     warnings.simplefilter('ignore')
     name, dsn, lab, over, seed = spec
+    if name == 'MLKR_big':
+        return run_mlkr_big()
     ds = data.dataset('R', seed) if dsn == 'R' else data.dataset(dsn)
     X, d = ds.X, ds.d
+    if 'dup_rows' in lab:
+        X = X.copy()
+        for c in np.unique(ds.y):
+            m = np.where(ds.y == c)[0]
+            X[m[1]] = X[m[0]]
+            if len(m) > 4:
+                X[m[-1]] = X[m[2]]
     viol, sigs = [], set()
     evals = states = trans = amb = 0
     head = {'value': 0.0, 'gradient': 0.0, 'reference_vs_central_differences': 0.0}
